@@ -79,6 +79,11 @@ def dec(value):
                 return uuid.UUID(value['__uuid__'])
             if '__exc__' in value:
                 return ValueError(value['__exc__'])
+            if '__done_future__' in value:
+                # a handle to something that has already happened (e.g. child.future()): a value like any other
+                fut = asyncio.get_event_loop().create_future()
+                fut.set_result(dec(value['__done_future__']))
+                return fut
         return {k: dec(v) for k, v in value.items()}
     if isinstance(value, list):
         return [dec(v) for v in value]
@@ -667,6 +672,30 @@ class EagerWaiting(process_states.Waiting):
             self.resume(dec(plan[serial]))
 
 
+def _failing_exit(state):
+    """A deterministic bug in the exit() of an application-defined state: it fails every time it is called."""
+    w = world.cur()
+    exc = InjectedFault(f'state-exit:{type(state).__name__}')
+    if w.fault_fired is None:
+        w.fault_fired = ('state-exit', type(state).__name__, 1, 'post', exc, False)
+    w.extra['state_exit_calls'] = w.extra.get('state_exit_calls', 0) + 1
+    raise exc
+
+
+class FailingExitRunning(process_states.Running):
+    def exit(self):
+        super().exit()
+        if self.process.PROGRAM.get('failing_state_exit') == 'running':
+            _failing_exit(self)
+
+
+class FailingExitWaiting(process_states.Waiting):
+    def exit(self):
+        super().exit()
+        if self.process.PROGRAM.get('failing_state_exit') == 'waiting':
+            _failing_exit(self)
+
+
 class SamplingWaiting(process_states.Waiting):
     """A WAITING state whose execute() runs code of the process before and after the wait (as the states of
     applications built on plumpy do): that code runs in the scope of the process like a step does."""
@@ -688,6 +717,10 @@ def _eager_state_classes(cls):
         classes[process_states.ProcessState.RUNNING] = InterruptibleRunning
     if cls.PROGRAM.get('sampling_waiting'):
         classes[process_states.ProcessState.WAITING] = SamplingWaiting
+    if cls.PROGRAM.get('failing_state_exit') == 'running':
+        classes[process_states.ProcessState.RUNNING] = FailingExitRunning
+    if cls.PROGRAM.get('failing_state_exit') == 'waiting':
+        classes[process_states.ProcessState.WAITING] = FailingExitWaiting
     return classes
 
 
@@ -707,10 +740,10 @@ def make_class(program, base=None):
         namespace['_spec_class'] = port_model.spec_class_for(program['spec']['sep'])
     for idx, step in enumerate(steps):
         namespace[step_name(idx)] = _make_step(idx, bool(step.get('async')))
-    if program.get('eager_waiting') or program.get('interruptible_running') or program.get('sampling_waiting'):
+    if program.get('eager_waiting') or program.get('interruptible_running') or program.get('sampling_waiting') or program.get('failing_state_exit'):
         namespace['get_state_classes'] = classmethod(_eager_state_classes)
     cls = type(name, (base or (CodecProg if program.get('codec') else ProgBase),), namespace)
-    if program.get('eager_waiting') or program.get('interruptible_running') or program.get('sampling_waiting'):
+    if program.get('eager_waiting') or program.get('interruptible_running') or program.get('sampling_waiting') or program.get('failing_state_exit'):
         cls._pv_eager_owner = cls
     setattr(gen_classes, name, cls)
     _CLASS_COUNT += 1
